@@ -11,6 +11,9 @@ pub struct GenCfg {
     pub big_weight: u64,
     pub allow_rejected: bool,
     pub allow_persist: bool,
+    /// mostly create_queue calls with long, unique names: metadata entries that roll files over
+    /// without any record pinning them
+    pub create_heavy: bool,
 }
 
 impl Default for GenCfg {
@@ -22,6 +25,7 @@ impl Default for GenCfg {
             big_weight: 6,
             allow_rejected: true,
             allow_persist: true,
+            create_heavy: false,
         }
     }
 }
@@ -190,6 +194,15 @@ pub fn gen_op(r: &Runner, rng: &mut Rng, cfg: &GenCfg) -> Op {
     }
     let w = rng.below(100);
     let q = existing(r, rng).unwrap();
+    if cfg.create_heavy && nq < 16 && (cfg.max_queues >= 1000 || rng.chance(3, 5)) {
+        // few queues, names long enough that a dozen of them fill a 128 KiB file
+        let len = *rng.pick(&[9000usize, 11000, 13000, 16000]);
+        let mut s = String::with_capacity(len);
+        while s.len() < len {
+            s.push((b'a' + (rng.below(26) as u8)) as char);
+        }
+        return Op::Create(s);
+    }
     if w < 5 {
         if nq < cfg.max_queues {
             // queues with long names make the (rare) metadata entries big enough to straddle
